@@ -104,6 +104,12 @@ class WireChopManager(WireManagerBase):
         super().update()
 
     def grade(self) -> None:
+        # start from scratch: grading the same mesh again (a second write())
+        # must not pile new divisions on top of the existing ones
+        self.grading = Grading(0)
+        for wire in self.wires:
+            wire.grading = Grading(wire.length)
+
         self.update()
 
         # Create a proper Grading from chops
